@@ -145,6 +145,41 @@ def build_catalog(rng):
         if style in ("blank-line-of-blanks", "mixed"):
             E.append(_entry("exprml.brk-" + style, t, "good-brk"))
 
+    # ---- the fault ALPHABET: every construct that carries Python x every class of faulty Python text (data-dependent
+    # faults).  All on one line, so the offending line is the construct's line whichever layer notices the fault.
+    texts = [("reserved-word", "class"), ("reserved-word-for", "for"), ("reserved-word-import", "import"), ("reserved-word-lambda", "lambda"),
+             ("reserved-word-in", "in"), ("soft-keyword-statement", "match v:"), ("closing-bracket", "v)"), ("stray-operator", "v +* 1"),
+             ("unterminated-string", "'abc"), ("invalid-token", "v ? 1"), ("keyword-in-expression", "v + class"),
+             ("keyword-as-argument", "str(import)"), ("assignment-to-keyword", "None = 1")]
+    sites = [("expr", "${ %s }", "code", False), ("exprfilter", "${ v | %s }", "filter", False),
+             ("block-rhs", "<%% z = %s %%>", "code", False), ("block-stmt", "<%%\n   %s\n%%>", "code", False),
+             ("modblock-rhs", "<%%! z = %s %%>", "code", False),
+             ("ctl.if", "%% if %s:\nx\n%% endif\n", "code", True), ("ctl.for", "%% for x in %s:\nx\n%% endfor\n", "code", True),
+             ("ctl.while", "%% while %s:\nx\n%% endwhile\n", "code", True), ("ctl.with", "%% with %s as z:\nx\n%% endwith\n", "code", True),
+             ("ctl.elif", "%% if v:\nx\n" + N + "%% elif %s:\ny\n%% endif\n", "code", True),
+             ("ctl.except", "%% try:\nx\n" + N + "%% except %s:\ny\n%% endtry\n", "code", True),
+             ("defsig", '<%%def name="f@(a=%s)">d</%%def>', "parse", False), ("pageargs", '<%%page args="a=%s"/>', "parse", False),
+             ("blockargs", '<%%block name="b@" args="a=%s">x</%%block>', "parse", False),
+             ("callexpr", '<%%call expr="str(%s)">c</%%call>', "code", False), ("callargs", '<%%call expr="str(1)" args="a=%s">c</%%call>', "parse", False),
+             ("attrexpr", '<%%include file="${%s}"/>', "code", False), ("includeargs", '<%%include file="x" args="a=%s"/>', "code", False),
+             ("deffilter", '<%%def name="f@()" filter="%s">d</%%def>', "parse", False), ("nscall", '<%%ns:foo x="${%s}"/>', "code", False)]
+    for sid, tmpl, site, ls in sites:
+        for tid, t in texts:
+            if sid == "block-stmt" and tid == "soft-keyword-statement":
+                continue        # (a statement header on a line of its own: Python reports the line after it)
+            pfx = 1 if sid in ("ctl.elif", "ctl.except") else 0
+            # the F marker goes right in front of the faulty text; block-stmt carries its own N on the statement line
+            txt = tmpl.replace("%s", F + t.replace("%", "%%"), 1) if "%s" in tmpl else tmpl
+            txt = txt.replace("%%", "%")
+            E.append(_entry("py.%s.%s" % (sid, tid), txt, "fault-alpha", "py", site, pfx, ls))
+    # empty / whitespace-only Python where an expression is required
+    # (an empty ${} / expr=" " compiles and renders nothing - not a fault, the property is silent - so only the control lines)
+    for sid, txt, site, ls in (("ctl.if", "% if " + F + ":\nx\n% endif\n", "code", True), ("ctl.for", "% for x in " + F + ":\nx\n% endfor\n", "code", True),
+                               ("ctl.while", "% while " + F + " :\nx\n% endwhile\n", "code", True)):
+        E.append(_entry("py.%s.empty" % sid, txt, "fault-alpha", "py", site, 0, ls))
+    E.append(_entry("py.block-stmt.bad-indentation", "<%\n   a = 1\n" + F + "        b = 2\n%>", "fault-alpha", "py", "code", 0, False))
+    E.append(_entry("py.block-stmt.unclosed-bracket", "<% z = " + F + "[v %>", "fault-alpha", "py", "code", 0, False))
+
     # ---- structural faults: N marks the construct the report must point at
     st("unterminated-expr", "${ v ", swallow=True)
     st("unterminated-expr-ml", "${ (v +\n 1", swallow=True)
@@ -443,6 +478,8 @@ def compare(case, E, text, o):
     """First failing clause of the comparison of observation `o` with TLC's expectation, or None."""
     if o["res"] != "exc":
         return o["res"] if o["res"] != "noexc" else "no-exception"
+    if o.get("module_left"):
+        return "module-file-left-behind"
     if (o["lineno"] != case["line"] or o["pos"] not in case["cols"]) and (o["lineno"], o["pos"]) == lc.eof_position(text):
         return "reported-at-eof"
     if o["lineno"] != case["line"]:
@@ -559,6 +596,13 @@ def check(run):
     if resk.violated:
         run.spec_violation(resk)
     n_brk = take(resk, "main")
+    alpha = idx(E, "fault-alpha")
+    resa = run.tlc("MC_Lines", cfg(few[:2], alpha, tails, 1, ["lf"], inv), name="mc-fault-alphabet", workers=workers, extra_files=files, env=env)
+    if resa.violated:
+        run.spec_violation(resa)
+    n_alpha = take(resa, "alpha")
+    if n_alpha < len(alpha) * 2:
+        raise MachineryError("fault-alphabet instance exported only %d cases" % n_alpha)
     if n_brk < len(brkf) * 4:
         raise MachineryError("break-style instance exported only %d cases" % n_brk)
     allf = faulty + eof_only
@@ -616,7 +660,11 @@ def check(run):
         h = int(hashlib.sha1(("%d:%d" % (run.seed, ci)).encode()).hexdigest()[:8], 16)
         paths = ["string"]
         key = (fe["id"], case["nl"])
-        if key not in seen_multi or h % stride == 0:
+        if fe["group"] == "fault-alpha":     # the alphabet: a module directory for every entry (nothing may be left behind), the rest sampled
+            if key not in seen_multi:
+                seen_multi.add(key)
+                paths += ["moddir"] + (["file", "lookup"] if h % 8 == 0 else [])
+        elif key not in seen_multi or h % stride == 0:
             seen_multi.add(key)
             paths += paths_all
             multi += 1
@@ -733,6 +781,10 @@ def check(run):
         "options: preprocessor identity / deleting 2 lines / inserting 2 lines / a list of both, bytes with a magic-comment first line, BOM, "
         "strict_undefined, enable_loop=False, imports, future_imports, default_filters: every fault entry x every option each run (<=1 preceding construct "
         "of 2 kinds); positions are positions in the text the lexer lexes, and exc.source indexed by exc.lineno must be the faulty line",
+        "fault alphabet: 20 Python-carrying sites x 13 classes of faulty text (reserved words alone, soft-keyword statement, closing bracket, stray "
+        "operator, unterminated string, invalid token, keyword inside an expression / as argument, assignment to a keyword) + empty conditions, bad "
+        "indentation, unclosed bracket; all on one line; an empty ${} or expr=\" \" compiles and renders nothing and is not counted as a fault; with a "
+        "module directory no .py file may remain after the failed compile",
         "compile routes (direct string/file/lookup, lazily via include/inherit/namespace from a rendering outer template, each with and "
         "without module_directory): every fault entry x every route each run, over <=1 preceding construct of 4 kinds; html template on a sample per pair",
     ]
